@@ -17,3 +17,68 @@ package promapi
 //@   ensures a.Fingerprint == b.Fingerprint && gap(a, b) <= step && staggered(a, b) ==> ok
 //@   ensures !ok ==> c == TimeRange{}
 //@   safe
+
+//@ func sliceRange [C13]
+//@   requires sliceSize > 0 && resolution >= 0
+//@   ensures len(slices) >= 1
+//@   ensures !slices[0].Start.After(start) && slices[len(slices)-1].End == end
+//@   ensures forall i int :: 0 <= i && i < len(slices)-1 ==>
+//@              slices[i+1].Start == slices[i].Start.Add(sliceSize) && slices[i].End == slices[i+1].Start.Add(-time.Second)
+//@   loop 1 invariant end.Sub(start) > resolution
+//@   loop 1 invariant len(slices) == 0 ==> !rstart.After(start)
+//@   loop 1 invariant len(slices) >= 1 ==> !slices[0].Start.After(start) &&
+//@              slices[len(slices)-1].Start == rstart.Add(-sliceSize) &&
+//@              slices[len(slices)-1].End == (rstart.After(end) ? end : rstart)
+//@   loop 1 invariant forall i int :: 0 <= i && i < len(slices)-1 ==>
+//@              slices[i+1].Start == slices[i].Start.Add(sliceSize) && slices[i].End == slices[i+1].Start
+//@   loop 1 decreases end.Sub(rstart)
+//@   loop 2 invariant 0 <= iter && iter <= len(slices) && len(slices) >= 1
+//@   loop 2 invariant !slices[0].Start.After(start) && slices[len(slices)-1].End == end
+//@   loop 2 invariant forall i int :: 0 <= i && i < len(slices)-1 ==> slices[i+1].Start == slices[i].Start.Add(sliceSize)
+//@   loop 2 invariant forall i int :: 0 <= i && i < len(slices)-1 && i < iter ==> slices[i].End == slices[i+1].Start.Add(-time.Second)
+//@   loop 2 invariant forall i int :: 0 <= i && i < len(slices)-1 && i >= iter ==> slices[i].End == slices[i+1].Start
+//@   safe
+
+//@ func ExpandRangesEnd [C13]
+//@   ensures forall i int :: 0 <= i && i < len(src) ==> src[i].End == old(src[i].End).Add(step - time.Second) &&
+//@              src[i].Start == old(src[i].Start) && src[i].Fingerprint == old(src[i].Fingerprint) && src[i].Labels == old(src[i].Labels)
+//@   loop 1 invariant 0 <= iter && iter <= len(src)
+//@   loop 1 invariant forall i int :: 0 <= i && i < iter ==> src[i].End == old(src[i].End).Add(step - time.Second) &&
+//@              src[i].Start == old(src[i].Start) && src[i].Fingerprint == old(src[i].Fingerprint) && src[i].Labels == old(src[i].Labels)
+//@   loop 1 invariant forall i int :: iter <= i && i < len(src) ==> src[i] == old(src[i])
+//@   safe
+
+// model.Time is milliseconds since the epoch; Time() converts to the nanosecond timeline (A4).
+//@ spec func tsOf(t model.Time) time.Time = time.Time(t * 1000000)
+//@ bind (github.com/prometheus/common/model.Time).Time = tsOf
+//@ spec func fpOf(ls labels.Labels) uint64
+//@ bind (github.com/prometheus/prometheus/model/labels.Labels).Hash = fpOf
+
+//@ func AppendSampleToRanges [C13]
+//@   requires step > 0
+//@   requires forall k int :: 0 <= k && k+1 < len(vals) ==> tsOf(vals[k+1].Timestamp).Sub(tsOf(vals[k].Timestamp)) >= step
+//@   requires forall i int :: 0 <= i && i < len(dst) ==> dst[i].Fingerprint != fpOf(ls)
+//@   ensures len(result) >= len(dst)
+//@   ensures forall i int :: 0 <= i && i < len(dst) ==> result[i] == old(dst[i])
+//@   ensures forall i int :: len(dst) <= i && i < len(result) ==> result[i].Fingerprint == fpOf(ls) && !result[i].End.Before(result[i].Start)
+//@   ensures forall i, j int :: len(dst) <= i && i < j && j < len(result) ==> result[i].End.Add(step).Before(result[j].Start)
+//@   ensures len(vals) >= 1 ==> len(result) > len(dst) && result[len(result)-1].End == tsOf(vals[len(vals)-1].Timestamp)
+//@   at store End#1 assert i == len(dst)-1 && iter1 >= 2 && dst[i].End == tsOf(vals[iter1-2].Timestamp) && ts.Sub(dst[i].End) <= step
+//@   at store Start#1 assert false
+//@   at call append assert iter1 >= 2 ==> ts.Sub(tsOf(vals[iter1-2].Timestamp)) > step
+//@   loop 1 invariant 0 <= iter && iter <= len(vals) && fp == fpOf(ls)
+//@   loop 1 invariant len(dst) >= len(old(dst)) && (iter == 0 ==> len(dst) == len(old(dst))) && (iter >= 1 ==> len(dst) > len(old(dst)))
+//@   loop 1 invariant iter >= 1 ==> dst[len(dst)-1].End == tsOf(vals[iter-1].Timestamp)
+//@   loop 1 invariant forall i int :: len(old(dst)) <= i && i < len(dst) && iter >= 1 ==> !dst[i].End.After(tsOf(vals[iter-1].Timestamp))
+//@   loop 1 invariant forall i int :: 0 <= i && i < len(old(dst)) ==> dst[i] == old(dst[i])
+//@   loop 1 invariant forall i int :: len(old(dst)) <= i && i < len(dst) ==> dst[i].Fingerprint == fp && !dst[i].End.Before(dst[i].Start)
+//@   loop 1 invariant forall i, j int :: len(old(dst)) <= i && i < j && j < len(dst) ==> dst[i].End.Add(step).Before(dst[j].Start)
+//@   loop 2 invariant 0 <= iter && iter <= len(dst) && !found && fp == fpOf(ls) && 1 <= iter1 && iter1 <= len(vals) && ts == tsOf(vals[iter1-1].Timestamp)
+//@   loop 2 invariant len(dst) >= len(old(dst)) && (iter1 == 1 ==> len(dst) == len(old(dst))) && (iter1 >= 2 ==> len(dst) > len(old(dst)))
+//@   loop 2 invariant iter1 >= 2 ==> dst[len(dst)-1].End == tsOf(vals[iter1-2].Timestamp)
+//@   loop 2 invariant forall i int :: len(old(dst)) <= i && i < len(dst) ==> dst[i].End.Before(ts)
+//@   loop 2 invariant forall i int :: 0 <= i && i < len(old(dst)) ==> dst[i] == old(dst[i])
+//@   loop 2 invariant forall i int :: len(old(dst)) <= i && i < len(dst) ==> dst[i].Fingerprint == fp && !dst[i].End.Before(dst[i].Start)
+//@   loop 2 invariant forall i, j int :: len(old(dst)) <= i && i < j && j < len(dst) ==> dst[i].End.Add(step).Before(dst[j].Start)
+//@   loop 2 invariant forall i int :: len(old(dst)) <= i && i < iter ==> dst[i].End.Add(step).Before(ts)
+//@   safe
